@@ -9,7 +9,8 @@ mkdir -p $OUT
 cp $W/patch.diff $OUT/patch.diff; cp $W/demo.py $OUT/demo.py
 cd $W
 PYTHONPATH=$W/src /venv/bin/python demo.py > $OUT/demo_with.txt 2>/dev/null; DW=$?
-PYTHONPATH=/repo/src /venv/bin/python demo.py > $OUT/demo_without.txt 2>/dev/null; DWO=$?
+REF=${REF:-/repo/src}   # pristine source to compare with (REF=/tmp/ref/src while something else patches /repo)
+PYTHONPATH=$REF /venv/bin/python demo.py > $OUT/demo_without.txt 2>/dev/null; DWO=$?
 SAME=$(cmp -s $OUT/demo_with.txt $OUT/demo_without.txt && echo identical || echo DIFFERENT)
 SUITE=$(PYTHONPATH=$W/src /venv/bin/python -m pytest -q -p no:cacheprovider tests 2>&1 | tail -1)
 echo "demo exit with/without: $DW/$DWO outputs: $SAME ; suite: $SUITE"
@@ -25,14 +26,19 @@ print(' '.join(out))
 PY
 )
 echo "checks affected: $PROPS"
-cd /repo && git apply $OUT/patch.diff || { echo "PATCH DOES NOT APPLY to /repo"; exit 9; }
+# SCRATCH=1: do not touch /repo, let the checks read the (patched) worktree source instead (TP_SRC)
+if [ -z "$SCRATCH" ]; then
+  cd /repo && git apply $OUT/patch.diff || { echo "PATCH DOES NOT APPLY to /repo"; exit 9; }
+else
+  export TP_SRC=$W/src
+fi
 RES=""
 for c in $PROPS; do
-  cd /verif && ./check $c > $OUT/check_$c.txt 2>&1; RC=$?
+  cd /verif && ./check $c ${JOBS:+--jobs $JOBS} > $OUT/check_$c.txt 2>&1; RC=$?
   RES="$RES $c:exit$RC"
   grep -E "^(VIOLATION|CHECKER|UNDECIDED)" $OUT/check_$c.txt | cut -c1-260 | head -4
 done
-git -C /repo checkout -- .
+[ -z "$SCRATCH" ] && git -C /repo checkout -- .
 # evidence files were rewritten for the patched tree: restore them
 git -C /verif checkout -- evidence 2>/dev/null
 echo "checks:$RES"
